@@ -4674,7 +4674,13 @@ class ParameterizedMetaclass(type):
                     # the methods it names may have been overridden on another
                     # branch or below the class that registered it
                     minfo = MInfo(cls=mcs, inst=None, name=dep[0], method=method)
-                    deps, dynamic_deps = _params_depended_on(minfo, dynamic=False)
+                    try:
+                        deps, dynamic_deps = _params_depended_on(minfo, dynamic=False)
+                    except AttributeError:
+                        # does not resolve on this class (an intermediate
+                        # class below an abstract base, say): what the
+                        # class that registered it resolved stands
+                        deps, dynamic_deps = dep[3], dep[4]
                     _inherited.append((dep[0], dinfo['watch'] == 'queued',
                                        dinfo.get('on_init', False), deps, dynamic_deps))
 
